@@ -320,6 +320,8 @@ REGISTRY["C01"]["teq"].append(seq({"seedoff": 201, "focus": 1, "n": 6, "ops": 60
 # round 10 (C11j): "never hidden while unexpired" holds for range queries with small limits too: expired, unswept
 # entries in front of live keys must not use up the limit
 REGISTRY["C11"]["teq"].append(seq({"seedoff": 1111, "focus": 1, "n": 6, "ops": 60}, {"focus": 1, "seedoff": 1111}))
+# round 10 (C13j): the writers' own lazy expiry (increment, insert, CAS, TTL update, patch, delete over an expired, unswept key)
+REGISTRY["C13"]["teq"].append(seq({"seedoff": 1313, "expdir": 1, "n": 1, "ops": 40}, {"expdir": 1, "seedoff": 1313}))
 REGISTRY["C13"]["teq"].append({"engine": "conc", "quick": {"n": 150, "mode": "hist", "accounting": 1, "seedoff": 13}, "thorough": {"n": 4000, "mode": "hist", "accounting": 1, "seedoff": 13},
                                 "oracle": True, "mismatch_is_failure": False, "timeout": 3400,
                                 "nontrivial": lambda case, res: res == "lin=1", "distinct_key": lambda case, res: case,
@@ -413,6 +415,10 @@ REGISTRY["C04"]["teq"].append({"engine": "mutimg", "quick": {"twice": 1, "bases"
                                 "nontrivial": lambda case, res: case.startswith("note reopen-twice"),
                                 "distinct_key": lambda case, res: case.split("mut=")[-1],
                                 "what": "idempotence on damaged and unusual files: the C17 mutants (among them a planted older generation that spans two blocks and carries a well-formed record image in its continuation block, above the newest generation of its key) are opened by the real code; every open that succeeds is followed by a second open of the file as the first one left it (TTL off) and both must report the same keys; the first open is also compared with Model.Recovery.open_image"})
+REGISTRY["C07"]["teq"].append({"engine": "race", "quick": {"n": 0, "shards": 6, "seedoff": 707}, "thorough": {"n": 0, "shards": 6, "seedoff": 707}, "oracle": True, "mismatch_is_failure": True, "timeout": 3400,
+                                "nontrivial": lambda case, res: "parked-explicit-timestamp-writer" in case and "refused" in case,
+                                "distinct_key": lambda case, res: case,
+                                "what": "directed, last-writer-wins across the stale-extent fallback: an increment, a compare-and-swap and a JSON patch with an explicit timestamp T on a key whose generation lives only on the device are parked (hook point c08_before_pin) after their optimistic read and before they pin the extent; another writer installs a generation stamped above T and a flush makes it durable and retires the old extent; released, the call falls over to the newer generation and must be refused or have no effect -- the key's timestamp never goes backwards (the other directed cases of the race engine run too)"})
 REGISTRY["C14"]["teq"].append({"engine": "sweepsched", "quick": {"n": 25, "seedoff": 1411}, "thorough": {"n": 600, "seedoff": 1411},
                                 "oracle": True, "mismatch_is_failure": True, "timeout": 3400,
                                 "nontrivial": lambda case, res: " X" in case and "removed=0" not in res, "distinct_key": lambda case, res: case,
